@@ -11,10 +11,29 @@ THEOREM_FILE = "Props/C04.v"
 MODELLED = c05.MODELLED + "; the simple visitor's fold and the raise-stops-delivery clause are checked on the implementation (search), see C12 for the fold model"
 ASSUMPTIONS = ["the visitor never returns False from a start callback (C05 covers skipping)"]
 
-NONCLASS_ONLY = {"on_namespace_alias", "on_concept", "on_function", "on_method_impl", "on_using_namespace",
-                 "on_deduction_guide", "on_namespace_start", "on_namespace_end", "on_extern_block_start",
-                 "on_extern_block_end", "on_parse_start", "on_template_inst", "on_variable"}
-CLASS_ONLY = {"on_class_field", "on_class_method", "on_class_friend", "on_class_start", "on_class_end"}
+def allowed_states():
+    """callback name -> tuple of state classes its signature in visitor.py declares"""
+    import typing
+    from cxxheaderparser import visitor as V
+    from cxxheaderparser import parserstate as S
+    out = {}
+    for name in dir(V.CxxVisitor):
+        if not name.startswith("on_"):
+            continue
+        hints = typing.get_type_hints(getattr(V.CxxVisitor, name), vars(V))
+        t = hints.get("state")
+        args = typing.get_args(t) if typing.get_origin(t) is typing.Union else (t,)
+        classes = []
+        for a in args:
+            o = typing.get_origin(a) or a
+            if o in (S.NamespaceBlockState, S.ExternBlockState, S.ClassBlockState):
+                classes.append(o)
+        if classes:
+            out[name] = tuple(classes)
+    return out
+
+
+_ALLOWED = None
 
 
 def correspond(ctx):
@@ -45,15 +64,14 @@ def wf_stream(rec):
         else:
             if state is not stack[-1]:
                 return "%s carries a state that is not the innermost open block" % name
-        # kind constraints of the callback signature
-        if name in CLASS_ONLY and not isinstance(state, S.ClassBlockState):
-            return "%s delivered with a %s" % (name, type(state).__name__)
-        if name in NONCLASS_ONLY and isinstance(state, S.ClassBlockState):
-            return "%s delivered with a ClassBlockState" % name
-        if name.startswith("on_namespace_") and name != "on_namespace_alias" and not isinstance(state, S.NamespaceBlockState):
-            return "%s delivered with a %s" % (name, type(state).__name__)
-        if name.startswith("on_extern_block") and not isinstance(state, S.ExternBlockState):
-            return "%s delivered with a %s" % (name, type(state).__name__)
+        # kind constraints of the callback signature (read from visitor.py's annotations)
+        global _ALLOWED
+        if _ALLOWED is None:
+            _ALLOWED = allowed_states()
+        ok = _ALLOWED.get(name)
+        if ok is not None and not isinstance(state, ok):
+            return "%s delivered with a %s, its signature declares %s" % (
+                name, type(state).__name__, "/".join(c.__name__ for c in ok))
     return None
 
 
@@ -198,6 +216,21 @@ def search(ctx, boost=False):
     for _ in range(n):
         g = blocks.gen_program(rng, rng.choice([4, 8, 14, 30, 60]))
         sources.append((g.source(), sum(1 for e in g.events if e[0] == "open")))
+    # mutated-input stream: items and blocks deliberately placed in the wrong kind of scope; the parser may
+    # reject them, but whatever it delivers before that must still be well-formed
+    for _ in range(n):
+        g = blocks.gen_program(rng, rng.choice([4, 8, 14, 30]), cross=True)
+        src = g.source()
+        s.evaluations += 1
+        s.count("cross-context")
+        rec, err = blocks.run_real(src)
+        s.count("cross-context:" + ("rejected" if err is not None else "accepted"))
+        m = wf_stream(rec)
+        if m:
+            s.violations.append(dict(what="misplaced construct: " + m, case=dict(kind="partial", source=src)))
+        if err is not None and not isinstance(err, impl.CxxParseError):
+            s.violations.append(dict(what="misplaced construct: parse() failed with %s" % type(err).__name__,
+                                     case=dict(kind="partial", source=src)))
     for src, nblocks in sources + [(c, 1) for c in impl_corpus()]:
         s.evaluations += 1
         if nblocks:
@@ -226,6 +259,10 @@ def impl_corpus():
 def replay(ctx, case):
     if case.get("kind") == "stream":
         return check_source(case["source"])[0]
+    if case.get("kind") == "partial":
+        rec, err = blocks.run_real(case["source"])
+        m = wf_stream(rec)
+        return [m] if m else []
     if case.get("kind") == "raise":
         m = raise_check(case["source"], 0, case["index"])
         return [m] if m else []
